@@ -105,7 +105,22 @@ def main():
         if f.endswith((".diff", ".py", ".cc", ".c", ".sh", ".md", ".xml")) and os.path.getsize(os.path.join(src, f)) < 200000:
             shutil.copy(os.path.join(src, f), dst)
     meta_out = dict(meta)
+    # keep the record of earlier runs (e.g. "missed" before the check was strengthened)
+    prev = []
+    try:
+        old = json.load(open(os.path.join(dst, "meta.json")))
+        prev = old.get("previous_runs", [])
+        if "verification" in old:
+            prev.append(old["verification"])
+    except Exception:
+        pass
+    if a.skip_confirm and prev:
+        for k in ("demo_clean_exit", "demo_patched_exit", "pinned_tests", "demo_patched_output"):
+            if k in prev[-1]:
+                res.setdefault(k, prev[-1][k])
     meta_out["verification"] = res
+    if prev:
+        meta_out["previous_runs"] = prev
     with open(os.path.join(dst, "meta.json"), "w") as fh:
         json.dump(meta_out, fh, indent=1)
     print(json.dumps(res, indent=1)[:3000])
